@@ -24,6 +24,29 @@ func init() {
 		},
 	})
 	register(&Property{
+		ID: "C27",
+		Explanation: "Decides the identity clause and the shape of the tree rewrite, not which paths a pattern matches (C28): (filter-identity) the node filters built by gatherExcludeFilters and gatherIncludeFilters return their node argument itself or nil, and no literal of these builders stores to a field of data.Node (kept entries keep metadata and data); for --exclude the selection helper returns false exactly on the edge where a reject function returned true for the node's path and the filter keeps the node exactly when the helper, asked about that path, returns true; (rewrite-tree) TreeRewriter.RewriteTree gives the filter item.Node and path.Join(nodepath, node.Name), adds exactly the node the filter returned, moves past a kept node only through AddNode or the edge where the rewritten subtree ID is null, sets a directory's Subtree to the recursive result, starts rewriting only after the tree re-encoded to the same ID (or AllowUnstableSerialization), and memoises old→new IDs only after Finalize succeeded; (rewrite-unchanged) in filterAndReplaceSnapshot, with an identical filtered tree, no metadata change and no recomputed summary, SaveSnapshot is unreachable. Not decided: the include filter's directory handling ('directories leading to matches'), pattern semantics, and summary statistics.",
+		Assumptions: commonAssumptions,
+		Technique:   "static analysis: return-value origin and field-store effects of the filter closures + per-iteration path cuts + specialised path evaluation (go/ssa)",
+		Run: func(c *eng.Ctx) {
+			ruleFilterIdentity(c)
+			ruleRewriteTreeShape(c)
+			ruleRewriteUnchanged(c)
+		},
+		Controls: []Control{
+			{Name: "exclude-filter-clears-content", File: "cmd/restic/cmd_rewrite.go",
+				Old: "		if exSelectByName(path) {\n			return node\n		}", New: "		if exSelectByName(path) {\n			node.AccessTime = node.ModTime\n			return node\n		}", Rule: "filter-identity"},
+			{Name: "exclude-keeps-matched-node", File: "cmd/restic/cmd_rewrite.go",
+				Old: "			if reject(nodepath) {\n				return false\n			}", New: "			if reject(nodepath) && len(nodepath) > 1 {\n				return false\n			}", Rule: "filter-identity"},
+			{Name: "non-dir-nodes-dropped-on-odd-names", File: "internal/walker/rewriter.go",
+				Old: "		if node.Type != data.NodeTypeDir {\n			err = tb.AddNode(node)", New: "		if node.Type != data.NodeTypeDir {\n			if node.Name == \"\" {\n				continue\n			}\n			err = tb.AddNode(node)", Rule: "rewrite-tree"},
+			{Name: "re-encode-check-ignored", File: "internal/walker/rewriter.go",
+				Old: "		if nodeID != testID {\n			return restic.ID{}, fmt.Errorf(\"cannot encode tree at %q without losing information\", nodepath)\n		}", New: "		if nodeID != testID {\n			debug.Log(\"cannot encode tree at %q without losing information\", nodepath)\n		}", Rule: "rewrite-tree"},
+			{Name: "unchanged-tree-saved-anyway", File: "cmd/restic/cmd_rewrite.go",
+				Old: "	if filteredTree == *sn.Tree && newMetadata == nil && matchingSummary {", New: "	if filteredTree == *sn.Tree && newMetadata == nil && matchingSummary && dryRun {", Rule: "rewrite-unchanged"},
+		},
+	})
+	register(&Property{
 		ID: "C22",
 		Explanation: "Decides the structure of policy evaluation, not which snapshots a policy selects: (bucket-table) in ApplyPolicy every counting and within field of ExpirePolicy (a field without a row is a violation) is paired with the bucket function of its own granularity (Last↔always, Hourly↔ymdh, Daily↔ymd, Weekly↔yw, Monthly↔ym, Yearly↔y, likewise for the Within* fields), with a reason text naming that granularity and the last-seen bucket starting at -1; the counters reported with a kept snapshot come from the row of the same name; the bucket functions compute their value from exactly the calendar fields of their granularity (y: Year; ym: Year, Month; ymd: Year, Month, Day; ymdh: Year, Month, Day, Hour; yw: ISOWeek) and `always` returns the snapshot's position; (policy-partition) every loop iteration appends the current snapshot to keep or to remove, never to both, every kept snapshot gets one KeepReason, the function returns (keep, remove, reasons), and every field of ExpirePolicy is read. Not decided: the selection itself (counts, 'oldest' rule, within arithmetic), monotonicity, and grouping.",
 		Assumptions: commonAssumptions,
